@@ -55,6 +55,7 @@ Inductive pop :=
 | Execute (id gate : nat) | TryExecute (id gate : nat)
 | Stop | Start | Cancel (k : nat) | OpenGate (g : nat) | Fire (i : nat)
 | Await (id : nat) | PollRes (id : nat)
+| AwaitBegun (n : nat) | AwaitArmed (n : nat) | AwaitTask (id : nat) | AwaitExpanded (n : nat)   (* harness: wait for a condition on the shared state *)
 | Slot (k : nat).                    (* the k-th goroutine the pool starts *)
 
 Inductive pret := PU | PB (b : bool) | PRes (r : tres) | PNone | PNoTask.
@@ -76,12 +77,13 @@ Inductive ppc :=
 | SubFut (k : subk) (id : nat) (pool : bool) (* deliver a context error to the task *)
 | SubRUnlock (k : subk)
 (* Stop *)
-| XCas1 | XCas0 | XCancel | XLock | XClose | XUnlock | XWait | XDrainRecv | XDrainSend (id : nat)
+| XCas1 | XCas0 | XCas1b | XCancel | XLock | XClose | XUnlock | XWait | XDrainRecv | XDrainSend (id : nat)
 (* Start *)
 | StRLock | StCas | StWgAdd | StRUnlock
 (* harness operations *)
 | CCancel (k : nat) | GOpen (g : nat) | FFire (i : nat)
 | RRecv (id : nat) | RPoll (id : nat) | RNoTask
+| HBegun (n : nat) | HArmed (n : nat) | HTask (id : nat) | HExpanded (n : nat)
 (* worker goroutines; tm = the expanded worker's timer (0 for a fixed worker: none) *)
 | WRecv                                       (* fixed worker: task, ok := <-taskQueue *)
 | WDone                                       (* fixed worker: wg.Done() *)
@@ -228,6 +230,10 @@ Definition pstep (l : ppc) (s : pshared) : pout :=
   | PInv (OpenGate g) => goto (GOpen g) s
   | PInv (Fire i) => goto (FFire i) s
   | PInv (Await id) => match get_task s id with Some _ => goto (RRecv id) s | None => goto RNoTask s end
+  | PInv (AwaitBegun n) => goto (HBegun n) s
+  | PInv (AwaitArmed n) => goto (HArmed n) s
+  | PInv (AwaitTask id) => goto (HTask id) s
+  | PInv (AwaitExpanded n) => goto (HExpanded n) s
   | PInv (PollRes id) => match get_task s id with Some _ => goto (RPoll id) s | None => goto RNoTask s end
   (* a goroutine slot: its first step is the first access of the goroutine body *)
   | PInv (Slot k) =>
@@ -288,7 +294,8 @@ Definition pstep (l : ppc) (s : pshared) : pout :=
       fin (match k with KDo => PU | KTry b => PB b end) (runlock s)
   (* ---- Stop *)
   | XCas1 => if Nat.eqb (p_state s) 1 then goto XCancel (upd_state s 2) else goto XCas0 s
-  | XCas0 => if Nat.eqb (p_state s) 0 then goto XCancel (upd_state s 2) else fin PU s
+  | XCas0 => if Nat.eqb (p_state s) 0 then goto XCancel (upd_state s 2) else goto XCas1b s
+  | XCas1b => if Nat.eqb (p_state s) 1 then goto XCancel (upd_state s 2) else fin PU s
   | XCancel => goto XLock (upd_poolctx s true)
   | XLock =>
       if rw_writer (p_lock s) || negb (Nat.eqb (rw_readers (p_lock s)) 0) then Blocked
@@ -351,6 +358,13 @@ Definition pstep (l : ppc) (s : pshared) : pout :=
           end
       end
   | RNoTask => fin PNoTask s
+  | HBegun n =>
+      if Nat.leb n (fold_right (fun t acc => match t with Some x => tk_execs x + acc | None => acc end) 0 (p_tasks s))
+      then fin PU s else Blocked
+  | HArmed n =>
+      if Nat.leb n (length (filter tm_armed (p_timers s))) then fin PU s else Blocked
+  | HTask id => match get_task s id with Some _ => fin PU s | None => Blocked end
+  | HExpanded n => if (p_expanded s <=? Z.of_nat n)%Z then fin PU s else Blocked
   (* ---- fixed worker *)
   | WRecv =>
       if queue_recv_ready s then
